@@ -233,3 +233,37 @@ def narrow_box_native(vc):
     vc.inputs["sample_mean_and_variance"] = [[float(v) for v in x.mean(axis=0)], [float(v) for v in x.var(axis=0)]]
     vc.ensures("long_run_law_is_the_truncated_target", bool(np.all(np.abs(x.mean(axis=0)) < 0.1) and np.all(np.abs(x.var(axis=0) - var_true) < 0.15 * var_true)))
     vc.ensures("samples_do_not_pile_up_on_a_wall", float(np.mean(np.abs(x) > 0.999)) < 0.01)
+
+
+@bounded("C01", "non_negative_proposal_native", native_runs=2)
+def non_negative_proposal_native(vc):
+    """a non-negative Gibbs parameter (no boundaries) under a constant log-density, fixed proposal width: one update of a point
+    distributed uniformly on [0, 12] must leave the distribution uniform next to zero (the folded proposal |x + N(0, s^2)| is
+    symmetric; a proposal re-drawn until it is non-negative is not, and depletes the neighbourhood of zero)"""
+    from inference.mcmc import GibbsChain
+    seed = vc.int("seed", lo=0, hi=1000)
+    rng = np.random.default_rng(seed)
+    post = lambda t: 0.0
+    ch = GibbsChain(posterior=post, start=np.array([1.0]), widths=np.array([1.0]), display_progress=False)
+    ch.set_non_negative(0, True)
+    p = ch.params[0]
+    p.rng = np.random.default_rng(seed + 1)
+    ch.rng = np.random.default_rng(seed + 2)
+    p.chk_int = 10 ** 9                       # fixed width
+    n = 40000
+    x0 = rng.uniform(0.0, 12.0, size=n)
+    x1 = np.empty(n)
+    for k in range(n):
+        p.samples[-1] = float(x0[k])
+        ch.probs[-1] = 0.0
+        ch.take_step()
+        x1[k] = p.samples[-1]
+        if len(p.samples) > 50:               # keep the stores short
+            del p.samples[:-2]
+            del ch.probs[:-2]
+    counts = np.array([np.sum((x1 >= a) & (x1 < a + 0.25)) for a in (0.0, 0.25, 0.5, 0.75)])
+    expect = n * 0.25 / 12.0
+    z = (counts - expect) / np.sqrt(expect)
+    vc.inputs["counts_in_quarter_bins_next_to_zero"] = [int(c) for c in counts]
+    vc.inputs["expected_per_bin"] = float(expect)
+    vc.ensures("one_update_keeps_a_uniform_law_uniform_next_to_zero", bool(np.all(np.abs(z) < 5.0)))
